@@ -103,9 +103,14 @@ def handle (j : Json) : Json :=
   | some "stage" =>
     match (getArr? j "mws").bind (·.mapM mwInputs?) with
     | some mws =>
+      -- per type (pavexc iterates a hash map here: which rejection it reports first is not determined)
+      let per := Json.arr ((collectAll [] 0 mws).map (fun e => Json.arr #[natJ e.1, match cloningFor e.2 with
+        | none => Json.str "none"
+        | some (.error i) => Json.mkObj [("error", natJ i)]
+        | some (.ok idxs) => Json.mkObj [("ok", natListJson idxs)]])).toArray
       match stageCloning mws with
-      | .ok t => Json.mkObj [("r", "ok"), ("cloning", Json.arr (t.map (fun (ty, idxs) => Json.arr #[natJ ty, natListJson idxs])).toArray)]
-      | .error i => Json.mkObj [("r", "rejected"), ("at", natJ i)]
+      | .ok t => Json.mkObj [("r", "ok"), ("per_type", per), ("cloning", Json.arr (t.map (fun (ty, idxs) => Json.arr #[natJ ty, natListJson idxs])).toArray)]
+      | .error i => Json.mkObj [("r", "rejected"), ("per_type", per), ("at", natJ i)]
     | none => Json.mkObj [("r", "bad-op")]
   | _ => Json.mkObj [("r", "bad-op")]
 
